@@ -5,6 +5,7 @@ CONSTANTS
   FwKinds = {"ok"}
   FwConfigs = {"--"}
   Values = {1}
+  NoResult = {FALSE}
   ErrReplies = FALSE
   HostileClasses = {"trunc", "types", "missing", "oversize", "delim", "chanlist", "vforge"}
   MetaKeys = {"cause", "effects", "cause+effects", "complete_channels", "name", "channels", "foo"}
